@@ -93,7 +93,34 @@ func init() {
 	}
 }
 
-func packageInitHook(e *sym.Exec, pkg *ssa.Package) {}
+// packageInitHook provides the protoreflect descriptors of a generated package: it parses
+// every file_*_rawDesc byte slice (already evaluated by the package initialiser) and binds
+// the File_* variables to opaque descriptor objects computed from it.
+func packageInitHook(e *sym.Exec, pkg *ssa.Package) {
+	var names []string
+	for n := range pkg.Members {
+		names = append(names, n)
+	}
+	sort.Strings(names)
+	for _, n := range names {
+		g, ok := pkg.Members[n].(*ssa.Global)
+		if !ok || !strings.HasPrefix(n, "file_") || !strings.HasSuffix(n, "_rawDesc") {
+			continue
+		}
+		b, err := e.ConcreteBytesOfGlobal(g)
+		if err != nil {
+			continue
+		}
+		node, err := e.RegisterRawDesc(b)
+		if err != nil {
+			continue
+		}
+		fileVar := "File_" + strings.TrimSuffix(strings.TrimPrefix(n, "file_"), "_rawDesc")
+		if fg, ok := pkg.Members[fileVar].(*ssa.Global); ok {
+			e.SetGlobal(fg, e.FileDescriptorValue(node))
+		}
+	}
+}
 
 func runSelftest() int { return 0 }
 
